@@ -1018,6 +1018,7 @@ func (c *Ctx) evalSelector(x *ast.SelectorExpr, s *State) Value {
 			ref, st, sv := c.walkPath(s, v, t, idx[:len(idx)-1], x)
 			f := st.Underlying().(*types.Struct).Field(idx[len(idx)-1])
 			if ref != "" {
+				c.guardCheck(s, st, f, x, "read")
 				return c.readField(s, ref, st, f)
 			}
 			return sv.(StructV).F[f.Name()]
@@ -1533,4 +1534,24 @@ func (c *Ctx) elemEscapeCheck(s *State, sv SliceV, idx string, elem types.Type, 
 	}
 	esc := c.heapGet(s, "X.esc."+memKey(elem), sA2)
 	c.oblige(s, "elemptr", what, c.curPos, not(eq(sel(sel(esc, sv.Ref), add(sv.Off, idx)), "1")), nil)
+}
+
+// guardCheck: access to a field declared `guarded`: a mutex must be held by the executing goroutine.
+func (c *Ctx) guardCheck(s *State, st types.Type, f *types.Var, at ast.Node, what string) {
+	if c.dry > 0 || len(guardeds) == 0 {
+		return
+	}
+	tk := typeKey(st)
+	for _, g := range guardeds {
+		if g.Type != tk {
+			continue
+		}
+		for _, fn := range g.Fields {
+			if fn == f.Name() {
+				held := c.heapGet(s, "X.nheld", sInt)
+				c.oblige(s, "guard", what+" of "+tk+"."+fn+" (guarded by "+g.By+")", at.Pos(), lt("0", held), g.Tags)
+				c.note("lock discipline: fields declared `guarded` are accessed only with a mutex held (which mutex is not tracked)")
+			}
+		}
+	}
 }
